@@ -98,6 +98,7 @@ JOBLIFE = {
 
 # ---------------------------------------------------------------- Cron
 CRON_HCFG = {"NJC": 2, "MaxMissed": 2, "MaxDownMin": 3}
+DYN = None
 
 
 def _cron_design(names, timeout):
@@ -129,7 +130,26 @@ CRON = {
     "monitor": {"module": "MonCron.tla", "cfg": "MonCron.cfg"},
 }
 
-MODULES = {"jobqueue": JOBQUEUE, "joblife": JOBLIFE, "cron": CRON}
+DYNCONFIG = {
+    "name": "dynconfig",
+    "vh": "dynconfig",
+    "design": {
+        "quick": [{"module": "DynConfig.tla", "cfg": "DynConfig_MC.cfg", "timeout": 600}, {"module": "DynConfig.tla", "cfg": "DynConfig_MC2.cfg", "timeout": 600}],
+        "thorough": [{"module": "DynConfig.tla", "cfg": "DynConfig_MC.cfg", "timeout": 1200}, {"module": "DynConfig.tla", "cfg": "DynConfig_MC2.cfg", "timeout": 1200},
+                     {"module": "DynConfig.tla", "cfg": "DynConfig_MC3.cfg", "timeout": 2400}],
+    },
+    "sim": {
+        "quick": [{"module": "DynConfig_Sim.tla", "cfg": "DynConfig_Sim.cfg", "num": 150, "depth": 24, "harness_cfg": {}, "timeout": 600}],
+        "thorough": [{"module": "DynConfig_Sim.tla", "cfg": "DynConfig_Sim.cfg", "num": 3000, "depth": 24, "harness_cfg": {}, "timeout": 1200}],
+    },
+    "harness": {
+        "quick": [{"name": "random", "args": ["dynconfig", "-mode", "random", "-seed", "{seed}", "-runs", "2000", "-steps", "30"]}],
+        "thorough": [{"name": "random", "args": ["dynconfig", "-mode", "random", "-seed", "{seed}", "-runs", "8000", "-steps", "40"]}],
+    },
+    "monitor": {"module": "MonDynConfig.tla", "cfg": "MonDynConfig.cfg"},
+}
+
+MODULES = {"jobqueue": JOBQUEUE, "joblife": JOBLIFE, "cron": CRON, "dynconfig": DYNCONFIG}
 
 PROPS = {
     "C05": {"modules": ["jobqueue"], "assumptions": [
@@ -158,11 +178,18 @@ CRON_ASSUME = [
 for _p in ("C01", "C02", "C03", "C04"):
     PROPS[_p] = {"modules": ["cron"], "assumptions": CRON_ASSUME}
 
+PROPS["C19"] = {"modules": ["dynconfig"], "assumptions": [
+    "TLC and the Json/IOUtils community modules are trusted; informer events reach the loaders through the verif accessor (synchronously)",
+    "Secret values are base64 text inside Secret.Data (the repository's own convention, see its loader tests)",
+    "wrongly typed values are: a string for a number or boolean, a number for a string; a map where a scalar is expected is silently dropped by the merge library and is not part of the explored input classes",
+]}
+
 _PASS = ["NeverEarly", "OnSchedule", "Stops", "Once", "InOrder", "Cap", "NoGap", "HeapFollows"]
 FORMULAS = {
     "C01": ["C01_" + x for x in _PASS] + ["C01_HeapIndex"],
-    "C02": ["C02_AtMostOne", "C02_Identity", "C02_KeyRoundTrip", "C02_Requested", "C02_Served"],
+    "C02": ["C02_AtMostOne", "C02_Identity", "C02_KeyRoundTrip", "C02_Requested", "C02_Served", "C02_SharedCacheIntact"],
     "C03": ["C03_" + x for x in _PASS],
+    "C19": ["C19_Layering", "C19_LKG"],
     "C04": ["C04_" + x for x in _PASS],
     "C05": ["C05_Admission"],
     "C06": ["C06_Fifo", "C06_EnqueueNeverRefused", "C06_AllowNeverRefused", "C06_RefusedOnlyAtLimit", "C06_NoStuck"],
@@ -204,6 +231,7 @@ LEVEL_TEXT.update({
     "C03": "TLC checks on the design spec and on traces of the real controller, for create / update / enable / disable / window change / delete / re-create interleaved with ticks, stalls and deliveries, that after a delivered change a pass requests only times of the new schedule later than the change, nothing for a disabled, unscheduled or deleted JobConfig, and that after the pass the heap holds the first due time of the schedule the controller knows - without a restart.",
     "C04": "TLC checks on the design spec (every restart instant, persisted lastScheduled written by the status controller, lastUpdated stamped by the webhook, windows, downtime shorter and longer than the threshold) and on traces of freshly started real CronWorkers that the heap after a start is the first due time after max(lastScheduled, start - maxDowntime, lastUpdated, notBefore) (start time itself when never scheduled) and that the first pass requests exactly the due times after that reference, capped at the limit, never one at or before lastScheduled.",
 })
+LEVEL_TEXT["C19"] = "TLC exhaustively checks on the DynConfig design spec (loader caches replaced only by updates that parse as a whole, ordered field-wise merge with override, decode, last-known-good per configuration name) that a source is never partially applied, that a decodable read is the field-wise layering of the current contents including zero values, that an undecodable read returns exactly the last successful value (an error only if there never was one) and never the wrongly typed value; TLC then checks the same layering and last-known-good formulas on traces of the real ConfigManager + DefaultsLoader + ConfigMapLoader + SecretLoader read through ContextConfigs.Jobs/JobConfigs/Cron, for TLC-generated update/read sequences (abstract fields mapped onto the 11 concrete fields in rotation) and seeded random sequences over all fields with zero, non-zero, wrongly typed and unparsable contents in either source."
 DESIGN_REF = {p: "DESIGN.md section 4 (%s)" % p for p in ["C%02d" % i for i in range(1, 21)]}
 TECHNIQUE = {}
 LEVEL_NOTE = {}
